@@ -2401,3 +2401,12 @@ fire_multi("c13-export-negative-constant-bare-2", ["C13"], IA, [
      "            return ast.UnaryOp(ast.USub(), ast.Constant(-expr, None))\n",
      "")],
     "E/exporter/Constant/negative-not-bare")
+
+DSF = "pymbolic/mapper/distributor.py"
+fire("c11-distribute-nonpositive-exponent", ["C11"], DSF,
+     "        if isinstance(expr.exponent, int) and expr.exponent > 0:\n",
+     "        if isinstance(expr.exponent, int):\n",
+     "P/DistributeMapper/map_power/repetition-needs-positive-exponent")
+silent("c11-distribute-exponent-ge-one", ["C11"], DSF,
+       "        if isinstance(expr.exponent, int) and expr.exponent > 0:\n",
+       "        if isinstance(expr.exponent, int) and not expr.exponent < 1:\n")
